@@ -6,8 +6,9 @@ Models: `Ca/Roa.lean` (`Routes::process_updates`), `Ca/Aspa.lean`, `Ca/Bgpsec.le
 and the child checks), `Ca/Resources.lean` (what "held" is for krill).
 
 `held`/`holdsAsn` are parameters of the iff-theorems: they hold for every predicate, in
-particular for `ResSet.holdsCode`, the test krill performs.  That this test is *not* the
-property's notion of holding (`ResSet.holdsSpec`) is `held_family_confusion` below.
+particular for `ResSet.holdsCode`, the test krill performs, which is the property's notion
+of holding (`held_is_own_family`; the pinned tree's family-blind test is kept as a labelled
+counter-model, `pinned_held_family_confusion`).
 -/
 import KrillModel.Ca.Lemmas
 namespace KM.Props.C05
@@ -112,35 +113,26 @@ theorem normalised_explicit (u : RoaUpdates) :
 
 /-! ## What krill takes for "held" -/
 
-/-- krill's test (`ResourceSet::contains_roa_address`) agrees with holding in the proper
-sense whenever the CA has address blocks of the prefix' family only … -/
-theorem held_agrees_one_family (res : ResSet) (roa : Roa) :
-    (roa.pfx.fam = .v4 → res.v6 = [] → res.holdsCode roa = res.holdsSpec roa) ∧
-    (roa.pfx.fam = .v6 → res.v4 = [] → res.holdsCode roa = res.holdsSpec roa) := by
-  unfold ResSet.holdsCode ResSet.holdsSpec blocksContainRoa
-  constructor
-  · intro hf h6; rw [hf, h6]; simp
-  · intro hf h4; rw [hf, h4]; simp
+/-- **krill's test is the property's notion of holding** (after fix f600a28f,
+`RoaPayload::is_held_by`): a block of the prefix' own address family spans the prefix.
+Together with `roa_delta_iff` (which holds for every `held`): a ROA delta is refused exactly
+when … it adds a prefix the CA does not hold. -/
+theorem held_is_own_family (res : ResSet) (roa : Roa) :
+    res.holdsCode roa = res.holdsSpec roa := rfl
 
-/-- … and a prefix held in the proper sense always passes it … -/
-theorem held_spec_implies_code (res : ResSet) (roa : Roa) (h : res.holdsSpec roa = true) :
-    res.holdsCode roa = true := by
-  unfold ResSet.holdsCode
-  unfold ResSet.holdsSpec at h
-  cases hf : roa.pfx.fam <;> rw [hf] at h <;> simp [h]
-
-/-- … but it is **not** the property's notion: the test is blind to the address family.  A
-CA that holds only IPv4 `10.0.0.0/8` passes it for the IPv6 prefix `a00::/16`, so
-`roa_delta_iff` with "held = same-family block" is false of the code.  (Replayed on the
-implementation: finding F-C05-2.) -/
-theorem held_family_confusion :
+/-- COUNTER-MODEL WITNESS – what the pinned tree did (finding F-C05-2, fixed by f600a28f):
+rpki-rs's `contains_roa_address` is blind to the address family.  A CA that held only IPv4
+`10.0.0.0/8` passed the test for the IPv6 prefix `a00::/16` and the delta was accepted. -/
+theorem pinned_held_family_confusion :
     ∃ (res : ResSet) (roa : Roa), roa.pfx.WF ∧ res.v6 = [] ∧ roa.pfx.fam = .v6 ∧
-      res.holdsSpec roa = false ∧ res.holdsCode roa = true ∧
-      (∃ r' evs, processUpdates [] res.holdsCode ⟨[⟨roa, none⟩], []⟩ = .ok (r', evs)) := by
+      res.holdsSpec roa = false ∧ res.holdsPinned roa = true ∧
+      (∃ r' evs, processUpdates [] res.holdsPinned ⟨[⟨roa, none⟩], []⟩ = .ok (r', evs)) ∧
+      (∃ E, processUpdates [] res.holdsCode ⟨[⟨roa, none⟩], []⟩ = .error E) := by
   refine ⟨{ v4 := [(10 * 2 ^ 120, 11 * 2 ^ 120 - 1)] }, ⟨64496, ⟨.v6, 0x0a00 * 2 ^ 112, 16⟩, some 16⟩,
-    by decide, rfl, rfl, by decide, by decide, ?_⟩
-  exact ⟨[(⟨64496, ⟨.v6, 0x0a00 * 2 ^ 112, 16⟩, some 16⟩, none)],
-    [.added ⟨64496, ⟨.v6, 0x0a00 * 2 ^ 112, 16⟩, some 16⟩], rfl⟩
+    by decide, rfl, rfl, by decide, by decide, ?_, ?_⟩
+  · exact ⟨[(⟨64496, ⟨.v6, 0x0a00 * 2 ^ 112, 16⟩, some 16⟩, none)],
+      [.added ⟨64496, ⟨.v6, 0x0a00 * 2 ^ 112, 16⟩, some 16⟩], rfl⟩
+  · exact ⟨{ notheld := [⟨⟨64496, ⟨.v6, 0x0a00 * 2 ^ 112, 16⟩, some 16⟩, none⟩] }, rfl⟩
 
 /-! ## ASPA -/
 
@@ -225,14 +217,12 @@ theorem aspa_existing_iff (s : AspaDefs) (holdsAsn : Nat → Bool) (c : Nat) (u 
         simp only [h3', Bool.not_false, if_true]
         exact ⟨fun _ => ⟨hne, hn2, by simp⟩, fun _ => ⟨_, rfl⟩⟩
 
-/-- **An accepted ASPA update is applied entirely** – when no customer is listed twice in
-`add_or_replace` and none of them is also listed in `remove`: for every customer the
-definition the events leave behind has the providers of the definition the ASPA objects are
-issued from (`apply_update` sorts them, hence "up to order"). -/
-theorem aspa_update_applied_partial (s : AspaDefs) (holdsAsn : Nat → Bool) (u : AspaUpdates)
+/-- **An accepted ASPA update is applied entirely** (after fix abeec4b3): for every customer
+the definition the events leave behind has the providers of the definition the ASPA objects
+are issued from (`apply_update` sorts them, hence "up to order") – also when a customer is
+removed and listed again, or listed twice, in one update. -/
+theorem aspa_update_applied (s : AspaDefs) (holdsAsn : Nat → Bool) (u : AspaUpdates)
     (all : AspaDefs) (evs : List AspaEv)
-    (hnodup : (u.addOrReplace.map (·.customer)).Nodup)
-    (hdisj : ∀ d ∈ u.addOrReplace, d.customer ∉ u.remove)
     (h : aspaProcessUpdates s holdsAsn u = .ok (all, evs)) :
     ∀ c, SameProviders ((applyAspaEvs s evs).get? c) (all.get? c) := by
   unfold aspaProcessUpdates at h
@@ -241,29 +231,23 @@ theorem aspa_update_applied_partial (s : AspaDefs) (holdsAsn : Nat → Bool) (u 
   | ok acc =>
     rw [hf] at h
     simp only at h
-    have hbase := (aspaRemoveFold s u.remove [] (s, []) (aspaBase_nil s).symm).2 acc hf
-    simp only [List.nil_append] at hbase
     have happ := aspaRemoveFold_applied s u.remove (s, []) acc (by simp [applyAspaEvs]) hf
-    exact aspaAddFold_applied s holdsAsn u.remove u.addOrReplace acc (all, evs) []
-      (by simpa using hnodup) hdisj
-      (by intro c; rw [happ]; exact sameProviders_refl _)
-      (by intro c hc _; rw [happ, hbase]; exact aspaBase_get? s u.remove c hc)
-      h
+    exact aspaAddFold_applied s holdsAsn u.addOrReplace acc (all, evs)
+      (by intro c; rw [happ]; exact sameProviders_refl _) h
 
-/-- The events of an accepted ASPA update do **not** always produce the definitions the
-objects were issued from: when one update removes a customer and also lists a definition
-for it, `process_updates` computes the event against the definitions *before* the update.
-The full statement "accepted ⟹ applying the events yields the returned definitions" fails.
-Witness: `64496 => 1,2` configured, update `{remove: [64496], add_or_replace: [64496 => 1,2]}`:
-accepted, returned definitions contain `64496 => 1,2`, the events leave nothing.
-(Replayed on the implementation: finding F-C05-3.) -/
-theorem aspa_update_not_applied :
+/-- COUNTER-MODEL WITNESS – what the pinned tree did (finding F-C05-3, fixed by abeec4b3):
+`process_updates` computed the event of an `add_or_replace` entry against the definitions
+*before* the update.  With `64496 => 1,2` configured, the update
+`{remove: [64496], add_or_replace: [64496 => 1,2]}` was accepted, the returned definitions
+(from which the objects were issued) contained `64496 => 1,2`, the events left nothing;
+and with `64496 => 1` configured, listing `64496 => 1,2` and then `64496 => 1` returned
+`64496 => 1` while the events left `64496 => 1,2`.  The fixed code gets both right. -/
+theorem pinned_aspa_update_not_applied :
     (∃ (s : AspaDefs) (holdsAsn : Nat → Bool) (u : AspaUpdates) (all : AspaDefs) (evs : List AspaEv),
-      aspaProcessUpdates s holdsAsn u = .ok (all, evs) ∧
+      aspaProcessUpdatesPinned s holdsAsn u = .ok (all, evs) ∧
       all.has 64496 = true ∧ (applyAspaEvs s evs).has 64496 = false) ∧
-    -- … and likewise when one customer is listed twice in `add_or_replace`
     (∃ (s : AspaDefs) (holdsAsn : Nat → Bool) (u : AspaUpdates) (all : AspaDefs) (evs : List AspaEv),
-      aspaProcessUpdates s holdsAsn u = .ok (all, evs) ∧ u.remove = [] ∧
+      aspaProcessUpdatesPinned s holdsAsn u = .ok (all, evs) ∧ u.remove = [] ∧
       (all.get? 64496).map (·.providers) = some [1] ∧
       ((applyAspaEvs s evs).get? 64496).map (·.providers) = some [1, 2]) := by
   refine ⟨⟨[⟨64496, [1, 2]⟩], fun _ => true, ⟨[⟨64496, [1, 2]⟩], [64496]⟩, _, _, rfl, ?_, ?_⟩,
@@ -347,10 +331,10 @@ theorem child_update_iff (all : ResSet) (s : Children) (h : String) (res : ResSe
       split at he <;> cases he
   · simp [h2]
 
-/-- The statement of the property also wants a child change refused when the child would
-be "entitled to nothing".  `process_child_update_resources` has no such test: the empty
-set is contained in everything.  (Replayed on the implementation: finding F-C05-4.) -/
-theorem child_update_empty_accepted :
+/-- Shrinking a child to nothing is a legitimate update (C02 quantifies over histories that
+do so); the clause "child entitled to nothing" of the property is about *adding* a child
+(`child_add_iff`).  `process_child_update_resources` accepts the empty set. -/
+theorem child_update_accepts_empty :
     ∃ (all : ResSet) (s : Children) (evs : List ChildEv),
       processChildUpdateResources all s "a" {} = .ok evs ∧
       ((applyChildEvs s evs).get? "a").map (·.resources.isEmpty) = some true := by
@@ -360,8 +344,8 @@ theorem child_update_empty_accepted :
 carries a new ID certificate *and* new resources is executed as two commands; when the
 second is refused the first stays applied.  The full statement "a refused child update
 request leaves the configuration untouched" fails at the level of the request; it holds per
-command (`refused_leaves_untouched`).  (Expected finding F-C05-1; the real request path
-needs a running CA manager and is replayed by the `system` stream.) -/
+command (`refused_leaves_untouched`).  (Finding F-C05-1; replayed on the real `CaManager` by
+the `system` stream, oracle `refused_leaves_untouched` of the `sysreq` driver.) -/
 theorem child_request_not_atomic :
     ∃ (all : ResSet) (s : Children) (req : ChildUpdateReq) (e : ChildErr),
       (caChildUpdate all s "a" req).2 = some e ∧ (caChildUpdate all s "a" req).1 ≠ s := by
@@ -412,13 +396,12 @@ example :
         ⟨[⟨p1, some "d"⟩, ⟨p5, some "x"⟩], [p4]⟩ = .ok (r', evs) ∧ evs.length = 4 := by
   exact ⟨_, _, rfl, by decide⟩
 
-/-- The hypotheses of `aspa_update_applied_partial` hold for an update that removes one
-customer, replaces another (providers changed) and adds a third. -/
+/-- `aspa_update_applied` covers an update that removes one customer and lists it again,
+lists another twice and adds a third. -/
 example :
     let s : AspaDefs := [⟨64496, [1, 2]⟩, ⟨64497, [3]⟩]
-    let u : AspaUpdates := ⟨[⟨64497, [4, 3]⟩, ⟨64498, [5]⟩], [64496]⟩
-    (u.addOrReplace.map (·.customer)).Nodup ∧ (∀ d ∈ u.addOrReplace, d.customer ∉ u.remove) ∧
-      ∃ all evs, aspaProcessUpdates s (fun _ => true) u = .ok (all, evs) ∧ evs.length = 3 := by
-  refine ⟨by decide, by decide, _, _, rfl, by decide⟩
+    let u : AspaUpdates := ⟨[⟨64496, [2]⟩, ⟨64497, [4, 3]⟩, ⟨64497, [4]⟩, ⟨64498, [5]⟩], [64496]⟩
+    ∃ all evs, aspaProcessUpdates s (fun _ => true) u = .ok (all, evs) ∧ evs.length = 5 := by
+  refine ⟨_, _, rfl, by decide⟩
 
 end KM.Props.C05
